@@ -23,17 +23,19 @@ def value(rnd, style):
         return base + rnd.choice([0, 0, 4e-9, -4e-9, 1.5e-8, 0.9e-6, 1.1e-6, 0.9e-5, 1.1e-5, -0.9e-5])
     if style == 'unit':
         return rnd.randint(0, 8) / 8.0
+    if style == 'negative':
+        return -rnd.randint(1, 40) / 4.0
     return rnd.uniform(-10, 10)
 
 
 def pick_style(rnd):
-    return rnd.choices(['grid', 'posgrid', 'near', 'real', 'unit'], [35, 20, 20, 15, 10])[0]
+    return rnd.choices(['grid', 'posgrid', 'near', 'real', 'unit', 'negative'], [32, 18, 18, 14, 9, 9])[0]
 
 
 def gen_alternatives(rnd, crit_ids, n=None, style=None, extra_value_prob=0.0):
     n = n or rnd.choice([1, 2, 2, 3, 3, 4, 4, 5, 6])
     style = style or pick_style(rnd)
-    ids = rnd.sample(ALT_IDS, n)
+    ids = rnd.sample(ALT_IDS, n) if n <= len(ALT_IDS) else rnd.sample(['a%02d' % i for i in range(40)], n)
     alts = []
     for i in ids:
         crit = {c: value(rnd, style) for c in crit_ids}
@@ -257,10 +259,12 @@ def heuristic_request(rnd, method=None, n_alts=None, n_crits=None, distinct_weig
     method = method or rnd.choice(HEURISTICS)
     crits = gen_criteria(rnd, n=n_crits or rnd.choice([1, 2, 2, 3, 3, 4]))
     cids = [c['id'] for c in crits]
-    alts = gen_alternatives(rnd, cids, n=n_alts or rnd.choice([1, 2, 3, 3, 4, 4, 5, 6]),
+    # now and then a large instance (library sorts switch algorithm above 12 elements)
+    big = rnd.random() < 0.08
+    alts = gen_alternatives(rnd, cids, n=n_alts or (rnd.randint(13, 22) if big else rnd.choice([1, 2, 3, 3, 4, 4, 5, 6])),
                             style=style or rnd.choice(['posgrid', 'grid', 'near', 'posgrid', 'real']))
     add_ranges(rnd, crits, alts, prob=0.3)
-    chose = gen_chose(rnd, alts, all_prob=0.4)
+    chose = gen_chose(rnd, alts, all_prob=0.8 if big else 0.4)
     mp = {'randomSeed': rnd.choice([0, 1, 7, 42, 12345, rnd.randint(-5, 10 ** 6)]),
           'randomAlternativesOrdering': rnd.random() < 0.4}
     if method == 'majorityHeuristic':
